@@ -104,7 +104,7 @@ func genC16(t *rapid.T, ctx *Ctx) interface{} {
 				if rapid.IntRange(0, 3).Draw(t, "registered") == 0 {
 					op.Special = rapid.SampledFrom(c16RegisteredNames).Draw(t, "rv")
 				} else {
-					op.Special = rapid.SampledFrom(c07ValueNames).Draw(t, "sv")
+					op.Special = rapid.SampledFrom(c07PlainValueNames).Draw(t, "sv")
 				}
 			} else {
 				o := valOpts(ctx)
